@@ -141,7 +141,7 @@ PROPS["C09"] = _e1({
 })
 
 PROPS["C13"] = _e1({
-    "rule": "all 56 ordered pairs (term quantity, per quantity) from {Length, Duration, Mass, SynRef, SynA, SynSingle, "
+    "rule": "all 56 ordered pairs (term quantity, per quantity) from {Length, Duration, SynPair (reference unit + exactly one unit), SynRef, SynA, SynSingle, "
             "SynNoRef (as per quantity, operand in the per unit), AmountT} x all term units x all per units x term amounts "
             "x per multiples x every operand unit x operand amounts (small alphabet): both constructors and four "
             "accessors, reciprocal (once and twice, bit-exact), rate*q and q*rate (bit-identical to each other, judged "
